@@ -132,9 +132,27 @@ static int sm4_recover_key(const SM4_KEY *rk, uint8_t raw[16])
 	return memcmp(&chk, rk, sizeof(chk)) == 0;
 }
 
+/* cheap change detection so that the expensive part runs only when a
+ * connection's key material actually changed since the last look */
+typedef struct { const TLS_CONNECT *c; uint8_t ms[48], kb[96], iv[24]; uint32_t rk[8]; } SecSeen;
+static SecSeen g_seen[2 * NET_MAX_CONN];
+
 void leak_collect_conn(const TLS_CONNECT *c)
 {
 	uint8_t raw[16];
+	SecSeen *ss = NULL;
+	for (int i = 0; i < 2 * NET_MAX_CONN; i++)
+		if (g_seen[i].c == c || !g_seen[i].c) { ss = &g_seen[i]; break; }
+	if (ss) {
+		if (ss->c == c && !memcmp(ss->ms, c->master_secret, 48) && !memcmp(ss->kb, c->key_block, 96)
+		    && !memcmp(ss->iv, c->client_write_iv, 12) && !memcmp(ss->iv + 12, c->server_write_iv, 12)
+		    && !memcmp(ss->rk, c->client_write_key.u.sm4_key.rk, 16) && !memcmp(ss->rk + 4, c->server_write_key.u.sm4_key.rk, 16))
+			return;
+		ss->c = c;
+		memcpy(ss->ms, c->master_secret, 48); memcpy(ss->kb, c->key_block, 96);
+		memcpy(ss->iv, c->client_write_iv, 12); memcpy(ss->iv + 12, c->server_write_iv, 12);
+		memcpy(ss->rk, c->client_write_key.u.sm4_key.rk, 16); memcpy(ss->rk + 4, c->server_write_key.u.sm4_key.rk, 16);
+	}
 	leak_add_secret("master_secret", c->master_secret, 48);
 	leak_add_secret("mac_key", c->key_block, 32);
 	leak_add_secret("mac_key", c->key_block + 32, 32);
@@ -166,6 +184,7 @@ void mon_reset(void)
 
 void leak_reset(void)
 {
+	memset(g_seen, 0, sizeof(g_seen));
 	g_nsec = 0; g_sec_overflow = 0; g_noseg = 0; g_leak[0] = 0; g_leak_class[0] = 0;
 }
 
